@@ -256,7 +256,7 @@ ord_list_to_assoc(Sorted, Assoc) :-
     ;  (  ord_pairs(Sorted)
            -> length(Sorted, N),
               list_to_assoc(N, Sorted, [], _, Assoc)
-           ;  domain_error(key_ordered_pairs, Sorted)
+           ;  throw(error(domain_error(key_ordered_pairs, Sorted), ord_list_to_assoc/2))
            )
     ).
 
